@@ -46,7 +46,9 @@ def s_comm(draw, tier):
     if draw(st.booleans()) and d >= 3:
         E[1] = E[0]
     return {"d": d, "o": draw(tempogen.eigenvalues(d)), "E": E,
-            "sd": draw(gens.powerlaw_spec(temps=[0.05, 0.1, 0.2, 0.5, 1.0, 3.0, 10.0], float_zeta=True)),
+            "sd": draw(gens.powerlaw_spec(temps=[0.0125, 0.02, 0.05, 0.1, 0.2, 0.5, 1.0, 3.0, 10.0], float_zeta=True)),
+            # a common offset of all levels must not matter; with the low temperatures |E_0| / T reaches 480
+            "shift": draw(st.sampled_from([0.0, 0.0, -4.0, 3.0])),
             "n": draw(st.integers(2, 40 if tier == "thorough" else 24)), "n2": draw(st.integers(2, 12)),
             "eps": draw(st.sampled_from([1e-8, 1e-10])), "again": draw(st.sampled_from(["compute", "get_state", "compute-twice"]))}
 
@@ -83,9 +85,10 @@ def run_comm(case):
     out = Outcome()
     d = case["d"]
     o = np.array(case["o"], dtype=float)
-    E = np.array(case["E"], dtype=float)
+    E = np.array(case["E"], dtype=float) + case.get("shift", 0.0)
     sd, lam = _conditioned(case["sd"], o)
     T = sd["T"]
+    out.label("E0/T>177" if abs(E.min()) / T > 177.5 else "E0/T<=177")
     out.nontrivial = bool(sd["alpha"] > 0 and len(set(np.round(o ** 2, 9))) > 1)
     out.label(f"d={d}", "cutoff=" + sd["cutoff_type"], "guard-crossed" if gens.guard_crossed(sd) else "no-guard",
               "n<=3" if case["n"] <= 3 else "n>3", "degenerate-E" if len(set(E.tolist())) < d else "distinct-E", "again=" + case["again"])
@@ -115,7 +118,7 @@ def s_weak(draw, tier):
     d = draw(st.integers(2, 4))
     return {"d": d, "o": draw(tempogen.eigenvalues(d)), "H": draw(gens.herm_spec(d, 2, 4)),
             "real": draw(st.booleans()),
-            "sd": draw(gens.powerlaw_spec(temps=[0.2, 0.5, 1.0, 3.0], zetas=[1.0, 2.0, 3.0], float_zeta=False)),
+            "sd": draw(gens.powerlaw_spec(temps=[0.02, 0.05, 0.2, 0.5, 1.0, 3.0], zetas=[1.0, 2.0, 3.0], float_zeta=False)),
             "n": draw(st.integers(2, 24)), "eps": draw(st.sampled_from([1e-9, 1e-10])),
             "again": draw(st.sampled_from(["compute", "get_state"]))}
 
@@ -133,7 +136,9 @@ def run_weak(case):
     cplx = bool(np.abs(H.imag).max() > 0)
     out.nontrivial = cplx or len(set(np.round(o ** 2, 9))) > 1
     out.label(f"d={d}", "complex-H" if cplx else "real-H", "n<=3" if case["n"] <= 3 else "n>3")
-    exact = expm(-H / T)
+    ev = np.linalg.eigvalsh(H)
+    out.label("E0/T>177" if abs(ev[0]) / T > 177.5 else "E0/T<=177")
+    exact = expm(-(H - ev[0] * np.eye(d)) / T)
     exact /= np.trace(exact)
     par = oqupy.GibbsParameters(case["n"], case["eps"])
     prev = None
